@@ -49,6 +49,13 @@ def run_job(job):
     case, tr = job["case"], job["tr"]
     r = case["r"]
     ident, pd = _world_consts()
+    if job.get("fresh"):                 # fresh pairing record: accessory identity and key, controller id and key
+        from harness.refacc import accessory as A
+        frng = random.Random(job["fresh"])
+        ident = A.Identity(acc_id=":".join("%02X" % frng.randrange(256) for _ in range(6)), seed=frng.randbytes(32))
+        ctrl = A.ControllerIdentity(ios_id="%08x-%04x-%04x-%04x-%012x" % (frng.getrandbits(32), frng.getrandbits(16), frng.getrandbits(16),
+                                                                           frng.getrandbits(16), frng.getrandbits(48)), seed=frng.randbytes(32))
+        pd = ident.pairing_data(ctrl, hosts=("10.0.0.1",))
     world = K.PVWorld(ident, resume=case["resume"])
     info = {"m2": None, "m3_verdict": "not sent", "m1_verdict": None}
 
@@ -209,6 +216,12 @@ def _jobs(ctx, cases, lens):
                     continue
                 j["cut_bytes"] = rng.randrange(1, n)
             jobs.append(j)
+    # honest exchanges and single-deviation replies over fresh pairing records (identities, keys, identifiers)
+    base = [c for c in cases if c["dist"] <= 1 and c["r"]["corrupt"] == "none" and not c["partial"]]
+    for _ in range(ctx.pick(60, 1500)):
+        c = rng.choice(base)
+        trs = ["gen", "ble"] if c["resume"] else (["gen", "ip", "coap", "ble"] if not (c["verdict"] == "ok" and c["r"]["pub"] != "eA") else ["gen"])
+        jobs.append({"case": c, "tr": rng.choice(trs), "fresh": rng.getrandbits(48) | 1})
     return jobs
 
 
@@ -278,8 +291,8 @@ def run(ctx):
             c = j["case"]
             if res["observed"] == "machinery":
                 raise MachineryError(f"{_short(c, j)}: {res['exc']}")
-            ctx.case((json.dumps(c["r"], sort_keys=True), c["m4"], c["resume"], j["tr"], str(j.get("how")), j.get("cut_bytes"))
-                     if not c["honest"] else None)
+            ctx.case((json.dumps(c["r"], sort_keys=True), c["m4"], c["resume"], j["tr"], str(j.get("how")), j.get("cut_bytes"),
+                      j.get("fresh")) if not c["honest"] else None)
             bad = []
             if res["observed"] == "baseexc":
                 bad.append(("raised a BaseException", res["exc"]))
@@ -335,7 +348,8 @@ def run(ctx):
 
 
 def _jsonable_job(j):
-    return {"case": j["case"], "tr": j["tr"], "how": list(j["how"]) if j.get("how") else None, "cut_bytes": j.get("cut_bytes")}
+    return {"case": j["case"], "tr": j["tr"], "how": list(j["how"]) if j.get("how") else None, "cut_bytes": j.get("cut_bytes"),
+            "fresh": j.get("fresh", 0)}
 
 
 def _replay(ctx):
